@@ -6,6 +6,7 @@ import (
 	"go/types"
 	"sort"
 	"strings"
+	"unicode"
 
 	"golang.org/x/tools/go/ssa"
 )
@@ -2190,5 +2191,288 @@ func rulePerStepGroupTables(r *Run, typs []string) {
 		if !bad {
 			o.OK("%d use(s) of tables keyed by grouping key, each on a map made in this call", n).At(r.pos(fn.Pos()))
 		}
+	}
+}
+
+// ruleResultKindSet (PV-WHOLE): a query that evaluates successfully answers with a typed result,
+// also when the result is empty: on every path of evalExpr that returns without error the
+// response was given its kind (a Set...Result call) or taken whole from an evaluator that does
+// so. An untyped response makes the CLI fail with "unsupported result" instead of printing
+// nothing.
+func ruleResultKindSet(r *Run) {
+	p := r.P
+	fn := p.Method(enginePkg, "Engine", "evalExpr")
+	o := r.Ob("PV-WHOLE", "logqlengine.(*Engine).evalExpr result kind", "every successful evaluation returns a response whose kind is set (streams / scalar / vector / matrix), empty results included")
+	if fn == nil {
+		o.Fail("-", "method not found")
+		return
+	}
+	w := &feWalker{Fn: fn, MaxPath: 4000}
+	n := 0
+	bad := false
+	for _, e := range w.Run() {
+		if e.Cut || len(e.Results) != 2 {
+			continue
+		}
+		if isErr, known := endReturnsError(e); !known || isErr {
+			continue
+		}
+		n++
+		typed := false
+		for _, c := range e.State.calls {
+			callee := staticCallee(c.Call)
+			if callee != nil && strings.HasPrefix(callee.Name(), "Set") && strings.HasSuffix(callee.Name(), "Result") {
+				typed = true
+			}
+		}
+		// or the whole response comes from another evaluator
+		v := e.Results[0].V
+		if c, _, ok := extractOf(v); ok && staticCallee(c) != nil && isFirstParty(pkgPathOf(staticCallee(c))) {
+			typed = true
+		}
+		if c, ok := v.(*ssa.Call); ok && staticCallee(c) != nil && isFirstParty(pkgPathOf(staticCallee(c))) {
+			typed = true
+		}
+		if !typed {
+			bad = true
+			o.Fail(r.pos(e.Term.Pos()), "evalExpr returns successfully without setting the kind of the response (neither a Set...Result call nor a response taken from an evaluator): an empty result is reported as an unsupported one")
+			break
+		}
+	}
+	if n == 0 {
+		o.Fail(r.pos(fn.Pos()), "no successful path found")
+		return
+	}
+	if !bad {
+		o.OK("%d successful path(s), each with a typed response", n).At(r.pos(fn.Pos()))
+	}
+}
+
+// ruleIsInstant (FE-BOOL): a query is an instant query iff it has a single evaluation point AND
+// no step: Start == End && Step == 0. A range query whose start and end coincide (--since=0s)
+// is still a range query: it must not get the instant look-back.
+func ruleIsInstant(r *Run) {
+	p := r.P
+	fn := p.Method(enginePkg, "EvalParams", "IsInstant")
+	o := r.Ob("FE-BOOL", "logqlengine.EvalParams.IsInstant", "IsInstant() == (Start == End && Step == 0)")
+	if fn == nil {
+		o.Fail("-", "method not found")
+		return
+	}
+	var eqSE, eqStep *ssa.BinOp
+	allInstrs(fn, func(in ssa.Instruction) {
+		b, ok := in.(*ssa.BinOp)
+		if !ok || (b.Op != token.EQL && b.Op != token.NEQ) {
+			return
+		}
+		fx, _, okx := loadOfField(b.X)
+		fy, _, oky := loadOfField(b.Y)
+		if okx && oky && ((fx == "Start" && fy == "End") || (fx == "End" && fy == "Start")) {
+			eqSE = b
+		}
+		if okx && fx == "Step" && isZeroConst(b.Y) {
+			eqStep = b
+		}
+		if oky && fy == "Step" && isZeroConst(b.X) {
+			eqStep = b
+		}
+	})
+	if eqSE == nil || eqStep == nil {
+		o.Fail(r.pos(fn.Pos()), "IsInstant consults Start==End: %v, Step==0: %v (both are needed)", eqSE != nil, eqStep != nil)
+		return
+	}
+	bad := false
+	for _, se := range []bool{false, true} {
+		for _, st := range []bool{false, true} {
+			w := &feWalker{Fn: fn, Assume: map[ssa.Value]constant.Value{
+				eqSE:   constant.MakeBool(se == (eqSE.Op == token.EQL)),
+				eqStep: constant.MakeBool(st == (eqStep.Op == token.EQL)),
+			}}
+			for _, e := range w.Run() {
+				if len(e.Results) != 1 || !e.Results[0].Known {
+					bad = true
+					o.Undecide(r.pos(fn.Pos()), "result not determined by the two comparisons")
+					continue
+				}
+				if got := constant.BoolVal(e.Results[0].C); got != (se && st) {
+					bad = true
+					o.Fail(r.pos(fn.Pos()), "Start==End is %v and Step==0 is %v: IsInstant() = %v, expected %v", se, st, got, se && st)
+				}
+			}
+		}
+	}
+	if !bad {
+		o.OK("Start == End && Step == 0").At(r.pos(fn.Pos()))
+	}
+}
+
+// ruleScannerIdentRune (FE-CLASS): which characters the LogQL scanner glues into one identifier.
+// A replacement of the scanner's default must still let an identifier start with a letter or an
+// underscore and continue with letters, digits and underscores (a dot only where dots are
+// allowed, never first): sanitised label names such as `_hidden` or `_0day` have to lex as one
+// identifier.
+func ruleScannerIdentRune(r *Run) {
+	p := r.P
+	fn := p.Func(lexerPkg, "Tokenize")
+	o := r.Ob("FE-CLASS", "lexer.Tokenize IsIdentRune", "an identifier may start with an ASCII letter or `_` and continue with letters, digits and `_`; `.` only after the first character and only where dots are allowed")
+	if fn == nil {
+		o.Fail("-", "function not found")
+		return
+	}
+	var closures []*ssa.Function
+	var stores []*ssa.Store
+	allInstrs(fn, func(in ssa.Instruction) {
+		st, ok := in.(*ssa.Store)
+		if !ok {
+			return
+		}
+		if f, _, ok := fieldNameOf(st.Addr); !ok || f != "IsIdentRune" {
+			return
+		}
+		if c := funcOfValue(stripTypeOnly(st.Val)); c != nil && c.Blocks != nil && len(c.Params) == 2 {
+			closures = append(closures, c)
+			stores = append(stores, st)
+		}
+	})
+	if len(closures) == 0 {
+		o.OK("the scanner's default identifier rule is used (Go identifiers: letter or _ first)").At(r.pos(fn.Pos()))
+		o.Trivial = true
+		return
+	}
+	bad := false
+	for ci, cl := range closures {
+		// installed only where dots are allowed?
+		onlyDots := false
+		for _, f := range factsAt(stores[ci].Block()) {
+			if fl, _, ok := loadOfField(f.Cond); ok && fl == "AllowDots" && f.Truth {
+				onlyDots = true
+			}
+		}
+		// a dots flag consulted inside the closure
+		var dotLoads []ssa.Value
+		allInstrs(cl, func(in ssa.Instruction) {
+			if u, ok := in.(*ssa.UnOp); ok {
+				if fl, _, ok := loadOfField(u); ok && fl == "AllowDots" {
+					dotLoads = append(dotLoads, u)
+				}
+			}
+		})
+		hook := func(w *feWalker, st *feState, v ssa.Value) (constant.Value, bool) {
+			c, ok := v.(*ssa.Call)
+			if !ok || len(c.Call.Args) != 1 {
+				return nil, false
+			}
+			callee := staticCallee(c)
+			if callee == nil || callee.Pkg == nil || callee.Pkg.Pkg.Path() != "unicode" {
+				return nil, false
+			}
+			a, ok := w.eval(st, c.Call.Args[0])
+			if !ok {
+				return nil, false
+			}
+			ch, _ := constant.Int64Val(constant.ToInt(a))
+			switch callee.Name() {
+			case "IsLetter":
+				return constant.MakeBool(unicode.IsLetter(rune(ch))), true
+			case "IsDigit":
+				return constant.MakeBool(unicode.IsDigit(rune(ch))), true
+			}
+			return nil, false
+		}
+		dotsCases := []bool{true}
+		if len(dotLoads) > 0 && !onlyDots {
+			dotsCases = []bool{false, true}
+		}
+		for _, dots := range dotsCases {
+			for _, tc := range []struct {
+				ch    rune
+				first bool
+				want  bool
+			}{{'a', true, true}, {'Z', false, true}, {'_', true, true}, {'_', false, true}, {'7', true, false}, {'7', false, true}, {'.', true, false}, {'.', false, dots}, {'-', false, false}, {' ', false, false}} {
+				i := int64(1)
+				if tc.first {
+					i = 0
+				}
+				assume := map[ssa.Value]constant.Value{cl.Params[0]: constant.MakeInt64(int64(tc.ch)), cl.Params[1]: constant.MakeInt64(i)}
+				for _, dl := range dotLoads {
+					assume[dl] = constant.MakeBool(dots)
+				}
+				w := &feWalker{Fn: cl, Assume: assume, Hook: hook}
+				for _, e := range w.Run() {
+					if len(e.Results) != 1 || !e.Results[0].Known {
+						bad = true
+						o.Undecide(r.pos(cl.Pos()), "the verdict for %q (first=%v) is not determined", tc.ch, tc.first)
+						continue
+					}
+					if got := constant.BoolVal(e.Results[0].C); got != tc.want {
+						bad = true
+						o.Fail(r.pos(cl.Pos()), "%q as %s character of an identifier (dots allowed=%v): accepted=%v, expected %v", tc.ch, map[bool]string{true: "the first", false: "a later"}[tc.first], dots, got, tc.want)
+					}
+				}
+			}
+		}
+	}
+	if !bad {
+		o.OK("%d replacement rule(s); letters and _ start an identifier, digits continue it, dots only where allowed", len(closures)).At(r.pos(fn.Pos()))
+	}
+}
+
+// ruleNoSumOfSquares (PV-NUM): variance is not computed from a running sum of raw squares. An
+// aggregator that accumulates v*v and later subtracts the squared sum loses every significant
+// digit when the values are large and close together (catastrophic cancellation: negative
+// variances, NaN deviations); the streaming aggregators update a mean and a centred second
+// moment instead. Structural clause only: it says nothing about the accuracy of what is used.
+func ruleNoSumOfSquares(r *Run) {
+	p := r.P
+	o := r.Ob("PV-NUM", "logqlmetric aggregators", "no aggregator accumulates the raw square of its input (sum of squares): variance and deviation are computed from centred moments")
+	n := 0
+	bad := false
+	for _, fn := range p.SrcFuncs() {
+		if pkgPathOf(fn) != modPath+"/"+metricPkg || fn.Signature.Recv() == nil || len(fn.Params) < 2 {
+			continue
+		}
+		if fn.Name() != "Apply" && fn.Name() != "Aggregate" {
+			continue
+		}
+		n++
+		isInput := func(v ssa.Value) bool {
+			v = stripConv(unspill(v))
+			for _, q := range fn.Params[1:] {
+				if v == ssa.Value(q) {
+					return true
+				}
+			}
+			// a point's Value inside a batch loop
+			if f, _, ok := loadOfField(v); ok && f == "Value" {
+				return true
+			}
+			return false
+		}
+		allInstrs(fn, func(in ssa.Instruction) {
+			st, ok := in.(*ssa.Store)
+			if !ok {
+				return
+			}
+			if _, base, ok := fieldNameOf(st.Addr); !ok || originValue(base) != ssa.Value(fn.Params[0]) && base != ssa.Value(fn.Params[0]) {
+				return
+			}
+			add, ok := st.Val.(*ssa.BinOp)
+			if !ok || add.Op != token.ADD {
+				return
+			}
+			for _, side := range []ssa.Value{add.X, add.Y} {
+				if m, ok := side.(*ssa.BinOp); ok && m.Op == token.MUL && isInput(m.X) && isInput(m.Y) && stripConv(unspill(m.X)) == stripConv(unspill(m.Y)) {
+					bad = true
+					o.Fail(r.pos(st.Pos()), "%s accumulates the raw square of its input: a variance computed from it cancels catastrophically for large, close values", shortFuncName(fn))
+				}
+			}
+		})
+	}
+	if n == 0 {
+		o.Fail("-", "no aggregator update methods found")
+		return
+	}
+	if !bad {
+		o.OK("%d update method(s), none accumulates v*v", n)
 	}
 }
